@@ -16,9 +16,39 @@ ASSUMPTIONS = ["regex lexing of operators is tied by tabulated tables and co-sim
 TIE_MODULES = ["FparserModel.Expr", "FparserModel.Props.ExprTie", "FparserModel.Generated.ExprLevels"]
 
 
+def wide_cases(rng, n):
+    """expressions with 10-16 parenthesised groups on one level (chains of products / sums /
+    mixed), over operands that are sub-expressions, calls and array elements"""
+    out = []
+    for _ in range(n):
+        k = rng.randint(10, 16)
+        # one precedence level per chain (left-associative), so the flat rendering is the tree
+        ops = rng.choice([["*"], ["+"], ["+", "-"], ["*", "/"], ["//"], [".and."], [".or."]])
+        def group(i):
+            r = rng.random()
+            a = ("atom", "a%d" % i)
+            b = ("atom", rng.choice(["b", "c", "k%d" % i, "2"]))
+            inner = ("bin", rng.choice(["+", "-", "*"]) if ops[0] not in ("//", ".and.", ".or.") else ops[0], a, b)
+            if ops[0] == "//":
+                inner = ("bin", "//", a, b)
+            if ops[0] in (".and.", ".or."):
+                inner = ("bin", rng.choice([".and.", ".or."]), a, b)
+            return ("paren", inner)
+        t = group(0)
+        for i in range(1, k):
+            t = ("bin", rng.choice(ops), t, group(i))
+        tree = CE.parenthesize(t, rng, redundant=0.0) if False else t
+        toks = CE.tokens_of(tree)
+        glue = CE.rand_glue(rng, toks, rng.choice([0.0, 0.5, 1.0]))
+        out.append(CE.make_case(tree, toks, glue, "wide", rng))
+    return out
+
+
 def _mk_cases(case):
     rng = random.Random(case["seed"])
     k = case["stream"]
+    if k == "wide":
+        return wide_cases(rng, case["n"])
     if k == "enum":
         cs = CE.enum_cases(case["depth"])
         return cs[case["lo"]:case["hi"]]
@@ -114,6 +144,8 @@ def cases(tier, seed):
         out.append({"stream": "malformed", "seed": s, "n": 400})
     for i, s in enumerate(util.seeds(seed, max(2, nb // 4), 34)):
         out.append({"stream": "program", "seed": s, "n": 150, "depth": 5})
+    for i, s in enumerate(util.seeds(seed, max(2, nb // 4), 35)):
+        out.append({"stream": "wide", "seed": s, "n": 150})
     return out
 
 
